@@ -18,6 +18,8 @@ Hypotheses that recur:
 import PsdVerif.Model.Attr
 import PsdVerif.Generated.Attr
 import PsdVerif.Lemmas.Attr
+import PsdVerif.Generated.AttrTable
+import PsdVerif.Lemmas.AttrTable
 
 namespace PsdVerif.C16
 open PsdVerif PsdVerif.Attr
@@ -875,5 +877,291 @@ example (k : Kind) : ∃ l' st l'', Attr.set genEnv .name (.str [26085, 26412]) 
   obtain ⟨st, l'', h1, h2, h3, _⟩ := persists genEnv (generated_env_laws false false) .name _ (sample k) l' hwf hs
     (by show 2 ≤ 255; decide) (name_storable _ _ false false _ _ (by decide) (by decide) (by decide)) hl'
   exact ⟨l', st, l'', hl', h1, h2, h3⟩
+
+/-! ## The accessor table
+
+`Model/AttrTable.lean` interprets a TABLE of the accessors — for every public attribute of every layer
+class the getter's read path and the setter's effects, read off the source by `harness/extract_c16.py`
+(`Generated/AttrTable.lean`) — on an abstract layer. The theorems below hold for ANY table that passes the
+decidable check `tableOk`; `current_tree_attr_table_ok` says the regenerated one does; the witnesses
+show that each clause of the check is needed. -/
+
+section Table
+open PsdVerif.AttrTable
+
+/-- GET AFTER SET, over the table. If a row passes `rowOk` — the setter refuses, or on every path that is
+    neither a refusal nor an early return under a test saying "already stored" it assigns the argument to the
+    FIRST location of the getter's read path (in place, or by replacing the block), under no test but the
+    existence of that block, and nothing overwrites it — then after an accepted call, whatever the outcomes
+    of the opaque tests and the values that are not the argument, the getter returns the value just set
+    (provided the first location exists afterwards: a group has its divider block). -/
+theorem table_get_set (r : Row) (hr : rowOk r = true) (v : Nat) (i : Inst) (s s' : St)
+    (h : AttrTable.set r v i s = .ok s') (hp : ∀ p, r.reads.head? = some p → s'.has p = true) :
+    AttrTable.get s' r = some v := by
+  simp only [rowOk, Bool.and_eq_true, Bool.or_eq_true] at hr
+  rcases hr.2 with href | hpath
+  · obtain ⟨x, hx⟩ := refusesAll_refuses r v i r.effs s href
+    rw [AttrTable.set, hx] at h; cases h
+  · cases hreads : r.reads with
+    | nil => simp [hreads] at hpath
+    | cons p rest =>
+      simp only [hreads] at hpath
+      have hpp : s'.has p = true := hp p (by simp [hreads])
+      have : AttrTable.get s' r = some (s'.mem p) := by simp [AttrTable.get, hreads, firstPresent, hpp]
+      rcases okPath_sound r v i p r.effs s s' hpath h hpp with e | e
+      · rw [this, e]
+      · exact e
+
+/-- A setter that cannot accept (a property without setter, an override that raises) refuses every value and
+    leaves the layer exactly as it was: a position edit is refused or takes effect, never accepted without
+    effect (`table_get_set` is the other half). -/
+theorem table_refusal (r : Row) (hr : refusesAll r.effs = true) (v : Nat) (i : Inst) (s : St) :
+    ∃ x, AttrTable.set r v i s = .refused x s :=
+  refusesAll_refuses r v i r.effs s hr
+
+/-- When no assignment precedes a refusal in the setter's body, a refused edit changes nothing. -/
+theorem table_refused_unchanged (r : Row) (hr : refuseFirst r.effs = true) (v : Nat) (i : Inst) (s s' : St) (x : String)
+    (h : AttrTable.set r v i s = .refused x s') : s' = s :=
+  refuseFirst_unchanged r v i r.effs s x s' hr h
+
+/-- FRAME, over the table: a call of the setter of one attribute — accepted, refused or failed — leaves the
+    value every getter of an unrelated attribute of the same class returns (unrelated: the two read paths
+    share no location and no block). Other layers are other objects: their stores are not an argument of `set`. -/
+theorem table_frame (t : Table) (ht : frameOk t = true) (r r' : Row) (hr : r ∈ t.rows) (hr' : r' ∈ t.rows)
+    (hc : r.cls = r'.cls) (hn : related r r' = false) (v : Nat) (i : Inst) (s : St) :
+    AttrTable.get (AttrTable.set r v i s).st r' = AttrTable.get s r' := by
+  have h1 := List.all_eq_true.mp (List.all_eq_true.mp ht r hr) r' hr'
+  simp only [hc, hn, bne_self_eq_false, Bool.false_or] at h1
+  apply get_congr
+  intro x hx
+  apply untouched_kept
+  intro e he
+  have := List.all_eq_true.mp (List.all_eq_true.mp h1 e he) x hx
+  simpa using this
+
+/-- an edit of layer `k` of several layer objects (each has its own store; that records share no element
+    object is `record_defaults_owned` / `edit_frames_other_layers` above) -/
+def docEdit (d : List St) (k : Nat) (r : Row) (v : Nat) (i : Inst) : List St :=
+  match d[k]? with
+  | some s => d.set k (AttrTable.set r v i s).st
+  | none => d
+
+/-- … and every other layer is left alone. -/
+theorem table_frame_other_layer (d : List St) (k j : Nat) (r : Row) (v : Nat) (i : Inst) (h : j ≠ k) :
+    (docEdit d k r v i)[j]? = d[j]? := by
+  unfold docEdit
+  split
+  · simp [Ne.symm h]
+  · rfl
+
+/-- every edit of the history is a row of the table -/
+def opsIn (t : Table) (ops : List Op) : Prop := ∀ o ∈ ops, match o with | .edit r _ _ => r ∈ t.rows | .save => True
+
+/-- (d) keeps the cache fresh along ANY history of edits and saves. -/
+theorem table_cache_fresh (t : Table) (ht : writerOk t = true) :
+    ∀ (ops : List Op) (s : St), opsIn t ops → Fresh t s → Fresh t (runHist t s ops) := by
+  intro ops
+  induction ops with
+  | nil => intro s _ h; exact h
+  | cons o ops ih =>
+    intro s hin hf
+    apply ih _ (fun o' ho' => hin o' (List.mem_cons_of_mem _ ho'))
+    have ho := hin o (List.mem_cons_self ..)
+    cases o with
+    | save => exact save_fresh t s hf
+    | edit r v i =>
+      simp only at ho
+      rw [fresh_iff] at hf ⊢
+      intro hc
+      simp only [writerOk, Bool.and_eq_true, Bool.or_eq_true] at ht
+      rcases ht.2 with he | hcov
+      · simp [Table.caching, he] at hc
+      · exact covered_fresh r v i r.effs [] s (List.all_eq_true.mp hcov.2 r ho) (hf hc)
+
+/-- PERSISTENCE, over the table, for histories: after any history of edits and saves in any order (save;
+    edit; save — edit; save; edit; save …) on a freshly read layer, what `save` writes and a reopen reads back
+    is, for every attribute, what the getter returns now. -/
+theorem table_persists (t : Table) (ht : tableOk t = true) (s0 : St) (h0 : Fresh t s0) (ops : List Op)
+    (hin : opsIn t ops) (r' : Row) :
+    AttrTable.get (AttrTable.reopen (runHist t s0 ops) (AttrTable.save t (runHist t s0 ops)).1) r' = AttrTable.get (runHist t s0 ops) r' := by
+  simp only [tableOk, Bool.and_eq_true] at ht
+  have hf := table_cache_fresh t ht.2 ops s0 hin h0
+  apply get_congr
+  intro x _
+  exact ⟨by simp [AttrTable.reopen, AttrTable.save, fileVal_fresh t _ hf x], reopen_has _ _ x⟩
+
+/-- … in particular the value of an accepted edit made after any such history (with saves before it) is
+    the value read back from the next save. -/
+theorem table_edit_persists (t : Table) (ht : tableOk t = true) (s0 : St) (h0 : Fresh t s0) (ops : List Op)
+    (hin : opsIn t ops) (r : Row) (hr : r ∈ t.rows) (v : Nat) (i : Inst) (s' : St)
+    (h : AttrTable.set r v i (runHist t s0 ops) = .ok s') (hp : ∀ p, r.reads.head? = some p → s'.has p = true) :
+    AttrTable.get (AttrTable.reopen s' (AttrTable.save t s').1) r = some v := by
+  have hrun : runHist t s0 (ops ++ [.edit r v i]) = s' := by
+    have : ∀ (ops : List Op) (s : St), runHist t s (ops ++ [.edit r v i]) = (AttrTable.set r v i (runHist t s ops)).st := by
+      intro ops; induction ops with
+      | nil => intro s; rfl
+      | cons o ops ih => intro s; exact ih _
+    rw [this, h]; rfl
+  have hin' : opsIn t (ops ++ [.edit r v i]) := by
+    intro o ho
+    rcases List.mem_append.mp ho with h1 | h1
+    · exact hin o h1
+    · simp at h1; subst h1; exact hr
+  have := table_persists t ht s0 h0 _ hin' r
+  rw [hrun] at this
+  rw [this]
+  have hrow : rowOk r = true := by
+    simp only [tableOk, Bool.and_eq_true] at ht
+    exact List.all_eq_true.mp ht.1.1.1.2 r hr
+  exact table_get_set r hrow v i _ s' h hp
+
+/-- a freshly read layer holds no encoded bytes -/
+theorem reopened_fresh (t : Table) (s : St) (f : Loc → Nat) : Fresh t (AttrTable.reopen s f) :=
+  fun _ _ _ => Or.inl rfl
+
+/-- The table regenerated from the source passes the check: (a) every setter's accepted path writes the
+    location its getter reads, or refuses; (b) no early return before that write except under "already stored";
+    (c) no setter assigns, in its own body, storage that belongs to another attribute whose setter its class
+    overrides; (d) the writers consult current field values only; frame: no setter touches what an unrelated
+    getter of the same class reads. -/
+theorem current_tree_attr_table_ok : tableOk Generated.AttrTable.table = true := by decide
+
+/-- Every layer class the API defines is represented by rows of the table, and — `lock`/`unlock`, whose
+    `assert` follows `set_data`, apart — every setter refuses before it writes. -/
+theorem current_tree_classes_covered :
+    (Generated.AttrTable.classes.all fun c => Generated.AttrTable.table.rows.any fun r => r.cls == c.2) = true ∧
+    (Generated.AttrTable.table.rows.all fun r => refuseFirst r.effs || r.attr == "lock" || r.attr == "unlock") = true := by
+  decide
+
+/-- Hence, for the code as it is: get-after-set for every row … -/
+theorem table_get_set_now (r : Row) (hr : r ∈ Generated.AttrTable.table.rows) (v : Nat) (i : Inst) (s s' : St)
+    (h : AttrTable.set r v i s = .ok s') (hp : ∀ p, r.reads.head? = some p → s'.has p = true) :
+    AttrTable.get s' r = some v := by
+  have := current_tree_attr_table_ok
+  simp only [tableOk, Bool.and_eq_true] at this
+  exact table_get_set r (List.all_eq_true.mp this.1.1.1.2 r hr) v i s s' h hp
+
+/-- … and persistence through any history of edits and saves. -/
+theorem table_persists_now (s0 : St) (f : Loc → Nat) (ops : List Op) (hin : opsIn Generated.AttrTable.table ops) (r' : Row) :
+    let t := Generated.AttrTable.table
+    let s := runHist t (AttrTable.reopen s0 f) ops
+    AttrTable.get (AttrTable.reopen s (AttrTable.save t s).1) r' = AttrTable.get s r' :=
+  table_persists _ current_tree_attr_table_ok _ (reopened_fresh _ s0 f) ops hin r'
+
+/-! ### Each clause is needed (the round-4 regressions as abstract tables) -/
+
+/-- a layer: every location holds 0, every block exists, nothing encoded -/
+def blank : St := ⟨fun _ => 0, fun _ => true, fun _ => none⟩
+/-- all opaque tests true, derived values 9 -/
+def yes : Inst := ⟨fun _ => true, fun _ => 9⟩
+
+/-- (a): `offset` written straight into the record of a class whose `left` is derived (shape without pixels,
+    group, artboard). -/
+def shapeOffsetDirect : Row :=
+  ⟨"offset.0", "ShapeLayer", [.derived "self._bbox"], [.derived "self._bbox"],
+   [.call "self._invalidate_bbox()" [], .write (.field "left") .arg [] [], .write (.field "top") .derived [] [],
+    .write (.field "right") .derived [] [], .write (.field "bottom") .derived [] []]⟩
+
+/-- The write misses what the getter reads: the check rejects the row, and the call is ACCEPTED WITHOUT EFFECT. -/
+theorem write_must_hit_read_location :
+    rowOk shapeOffsetDirect = false ∧
+    (AttrTable.set shapeOffsetDirect 7 yes blank).accepted = true ∧
+    AttrTable.get (AttrTable.set shapeOffsetDirect 7 yes blank).st shapeOffsetDirect = some 0 := by
+  decide
+
+/-- (b): `clipping_layer` with `if self._psd is None or clipping == self._record.clipping: return` before the
+    record write. -/
+def clippingEarlyReturn : Row :=
+  ⟨"clipping_layer", "Layer", [.field "clipping"], [.field "clipping"],
+   [.ret [⟨"self._psd is None", .free, false⟩], .ret [⟨"clipping == self._record.clipping", .stored, false⟩],
+    .write (.field "clipping") .arg [] [], .call "self._psd._compute_clipping_layers()" []]⟩
+
+/-- On a detached layer (the first test true) the assignment is dropped; with only the "already stored" return
+    the row passes and the value arrives. -/
+theorem early_return_must_imply_stored :
+    rowOk clippingEarlyReturn = false ∧
+    (AttrTable.set clippingEarlyReturn 1 yes blank).accepted = true ∧
+    AttrTable.get (AttrTable.set clippingEarlyReturn 1 yes blank).st clippingEarlyReturn = some 0 ∧
+    rowOk { clippingEarlyReturn with effs := clippingEarlyReturn.effs.drop 1 } = true ∧
+    AttrTable.get (AttrTable.set { clippingEarlyReturn with effs := clippingEarlyReturn.effs.drop 1 } 1 yes blank).st
+      clippingEarlyReturn = some 1 := by
+  decide
+
+/-- (c): a class whose own `left` refuses (but still reads the record), and an `offset` that assigns the
+    record in its own body instead of going through `self.left`. -/
+def lockedPosition : Table :=
+  { rows := [
+      ⟨"left", "Layer", [.field "left"], [.field "left"], [.write (.field "left") .arg [] [], .write (.field "right") .derived [] []]⟩,
+      ⟨"left", "Pinned", [.field "left"], [.field "left"], [.refuse "NotImplementedError" []]⟩,
+      ⟨"offset.0", "Pinned", [.field "left"], [.field "left", .field "top"],
+        [.write (.field "left") .arg [] [], .write (.field "top") .derived [] []]⟩],
+    caches := [], writerOther := [] }
+
+/-- Every row passes (a) and (b), yet `left = 7` is refused while `offset = (7, …)` moves the layer: the
+    override is bypassed. Only (c) sees it. -/
+theorem delegation_must_go_through_own_setter :
+    lockedPosition.rows.all rowOk = true ∧ delegationOk lockedPosition = false ∧ tableOk lockedPosition = false ∧
+    (lockedPosition.rows.map fun r => ((AttrTable.set r 7 yes blank).accepted,
+        AttrTable.get (AttrTable.set r 7 yes blank).st ⟨"left", "Pinned", [.field "left"], [], []⟩)) =
+      [(true, some 7), (false, some 0), (true, some 7)] := by
+  decide
+
+/-- (d): `TaggedBlock.write` keeps the bytes it encoded and drops them only when `data` is REPLACED; `lock()`
+    mutates the element in place. -/
+def cachingWriter (invalidates : Bool) : Table :=
+  { rows := [
+      ⟨"lock", "Layer", [.block "PROTECTED_SETTING" "value"], [.block "PROTECTED_SETTING" "value"],
+        [.write (.block "PROTECTED_SETTING" "value") .arg [] ["ProtectedSetting.lock"]] ++
+          (if invalidates then [.invalidate "PROTECTED_SETTING" []] else [])⟩,
+      ⟨"name", "Layer", [.block "UNICODE_LAYER_NAME" "value", .field "name"], [.block "UNICODE_LAYER_NAME" "value", .field "name"],
+        [.write (.field "name") .arg [] [], .replace "UNICODE_LAYER_NAME" "value" .arg [] []]⟩],
+    caches := [⟨"TaggedBlock", "_encoded", true⟩], writerOther := [] }
+
+def lockRow (t : Table) : Row := (t.row? "lock" "Layer").getD default
+def nameRow (t : Table) : Row := (t.row? "name" "Layer").getD default
+
+/-- save; lock(5); save; reopen reads the OLD lock state (edit; save; reopen alone is fine, and so is the name,
+    whose block is replaced); with the cache dropped at the mutation site the table passes and the value persists. -/
+theorem cache_must_follow_in_place_mutation :
+    let t := cachingWriter false
+    let h := runHist t blank [.save, .edit (lockRow t) 5 yes, .edit (nameRow t) 3 yes]
+    tableOk t = false ∧ t.rows.all rowOk = true ∧
+    AttrTable.get h (lockRow t) = some 5 ∧ AttrTable.get (AttrTable.reopen h (AttrTable.save t h).1) (lockRow t) = some 0 ∧
+    AttrTable.get (AttrTable.reopen h (AttrTable.save t h).1) (nameRow t) = some 3 ∧
+    (let h1 := runHist t blank [.edit (lockRow t) 5 yes]
+     AttrTable.get (AttrTable.reopen h1 (AttrTable.save t h1).1) (lockRow t) = some 5) ∧
+    (let t' := cachingWriter true
+     let h' := runHist t' blank [.save, .edit (lockRow t') 5 yes, .save, .edit (lockRow t') 6 yes]
+     tableOk t' = true ∧ AttrTable.get (AttrTable.reopen h' (AttrTable.save t' h').1) (lockRow t') = some 6) := by
+  decide
+
+/-- frame: a setter that also assigns what another getter reads (`opacity` resetting `clipping`). -/
+def frameBreaker : Table :=
+  { rows := [
+      ⟨"opacity", "Layer", [.field "opacity"], [.field "opacity"],
+        [.write (.field "opacity") .arg [] [], .write (.field "clipping") .derived [] []]⟩,
+      ⟨"clipping_layer", "Layer", [.field "clipping"], [.field "clipping"], [.write (.field "clipping") .arg [] []]⟩],
+    caches := [], writerOther := [] }
+
+theorem frame_clause_needed :
+    frameBreaker.rows.all rowOk = true ∧ frameOk frameBreaker = false ∧
+    AttrTable.get (AttrTable.set (frameBreaker.rows.headD default) 7 yes blank).st
+      ⟨"clipping_layer", "Layer", [.field "clipping"], [], []⟩ = some 9 := by
+  decide
+
+/-! ### Non-vacuity -/
+
+example : Fresh Generated.AttrTable.table blank := fun _ _ _ => Or.inl rfl
+example : opsIn (cachingWriter true) [.save, .edit (lockRow (cachingWriter true)) 5 yes] := by
+  intro o ho; simp at ho; rcases ho with h | h <;> subst h <;> simp [lockRow, cachingWriter, Table.row?]
+-- the Group blend-mode row of the current table: accepted on a group that has its divider block, value in place
+example : (Generated.AttrTable.table.row? "blend_mode" "Group").map (fun r =>
+    ((AttrTable.set r 4 yes blank).accepted, AttrTable.get (AttrTable.set r 4 yes blank).st r)) = some (true, some 4) := by
+  decide
+-- `offset` on a group in the current table: refused, nothing changes
+example : (Generated.AttrTable.table.row? "offset.0" "Group").map (fun r => (AttrTable.set r 4 yes blank).accepted) = some false := by
+  decide
+
+end Table
 
 end PsdVerif.C16
